@@ -133,6 +133,10 @@ package beaconing
 //@ func (*DefaultExtender).Extend
 //@   props C23
 //@   puredyn
+//@   # the expiration time given to the hop field and to the peer hop fields never exceeds the configured maximum:
+//@   # the value MaxExpTime() returned in this call (expTime__first = the first value of the local variable expTime)
+//@   callpre (*DefaultExtender).createHopEntry: a3 <= expTime__first
+//@   callpre (*DefaultExtender).createPeerEntries: a3 <= expTime__first
 //@   # the accumulator value (C22) plays no role in the clauses below: keep its recursive definition out of the queries
 //@   frameonly extractBeta
 //@   requires s != nil && s.Intfs != nil && s.SignerGen != nil && pseg != nil && sigmaDef(pseg)
